@@ -122,3 +122,58 @@ def lnl_from_rules(model, newick_with_names, seqs, rules):
     root = q(edges[0])[1]
     site = S.site_likelihoods(tree, seqs, family, lambda e: q(e)[0], lambda e: length[e], root)
     return S.log_likelihood(site)
+
+
+# ----------------------------------------------------------------------------------------------- nesting within bounds
+def param_cells(name):
+    """the directed nucleotide changes a rate parameter multiplies (published reading of its name)"""
+    pred = S.rate_class(name)
+    return frozenset((x, y) for x in S.NUCS for y in S.NUCS if x != y and pred(x, y, 0))
+
+
+def projected_values(null_model, alt_model, null_rules, edges):
+    """{(alt parameter, edge): the value it must take for the richer model's rate matrix on that edge to be the
+    nested model's}.  Both rate matrices are  q(x->y) = w(y) * product of the parameters covering (x, y)  with w = pi_y
+    (stationary families) or 1 (GN, ssGN) and the parameter-free cells as reference class, so the required value is the
+    nested model's q/w on the parameter's cells relative to q/w on the richer model's reference cells.
+    Nucleotide families only (returns {} otherwise)."""
+    fam_n, w_null, pikind, names_null = MODELS[null_model]
+    fam_a, w_alt, _, names_alt = MODELS[alt_model]
+    if fam_n != "nuc" or fam_a != "nuc":
+        return {}
+    states = S.states_of("nuc")
+    idx = {s: i for i, s in enumerate(states)}
+    pi = {s: 0.25 for s in states}
+    par = {}
+    for r in null_rules:
+        if r["par_name"] == "mprobs":
+            if pikind != "equal":
+                pi = {str(k): float(v) for k, v in dict(rule_value(r)).items()}
+        elif r["par_name"] != "length":
+            for e in rule_edges(r, edges):
+                par[(r["par_name"], e)] = float(rule_value(r))
+    cells = {p: param_cells(p) for p in names_alt}
+    covered = frozenset().union(*cells.values()) if cells else frozenset()
+    ref = sorted((x, y) for x in states for y in states if x != y and (x, y) not in covered)
+    out = {}
+    for e in edges:
+        q, _ = S.rate_matrix("nuc", w_null, pi, {p: par.get((p, e), 1.0) for p in names_null})
+
+        def r_(cell):
+            x, y = cell
+            return q[idx[x], idx[y]] / (pi[y] if w_alt == "tuple" else 1.0)
+
+        base = r_(ref[0])
+        for p in names_alt:
+            out[(p, e)] = r_(sorted(cells[p])[0]) / base
+    return out
+
+
+def outside_bounds(projected, lower_upper):
+    """projected values that the richer model's declared bounds exclude.  lower_upper: {(param, edge): (lo, hi)}"""
+    bad = []
+    for key, v in sorted(projected.items()):
+        lo, hi = lower_upper.get(key, (None, None))
+        if (lo is not None and v < lo) or (hi is not None and v > hi):
+            bad.append((key, v, lo, hi))
+    return bad
